@@ -116,6 +116,9 @@ def findValueChoice (e : BEnv) (var : XmlVar) (value : J) : Except Err (Option V
 /-- `bind_text` for a var that is not a compound field -/
 def bindTextPlain (e : BEnv) (cfg : ParserConfig) (var : VarCore) (value : J) : Except Err Val :=
   if var.anyType || var.isWildcard then rawVal value
+  -- `if not var.tokens and type(value) in var.types: return value`
+  else if !var.tokens && (match scalarType value with | some t => var.types.contains t | none => false) then
+    rawVal value
   else
     match serializeJ value with
     | .error err => .error err
@@ -148,30 +151,53 @@ def maxScore : List Nat → Option Nat
   | [] => none
   | x :: xs => some (xs.foldl max x)
 
+/-- the keys a candidate class has to declare: with `fail_on_unknown_properties` off the keys
+that none of the classes declares are unknown properties and do not count -/
+def bestKeys (Γ : Ctx) (cfg : ParserConfig) (classes : List ClassId) (keys : List Str) : List Str :=
+  if cfg.failOnUnknownProperties then keys
+  else keys.filter fun k => classes.any (localNamesMatch Γ [k])
+
+/-- `DictDecoder.find_best_dataclass` : the trial decodes of the classes that declare the keys,
+scored; `none` = no class binds the data (every attempt raised), otherwise the admissible winners -/
+def findBestWith (rec : Rec) (cfg : ParserConfig) (ordered : Bool) (matching : List ClassId) (data : J) :
+    Except Err (Option (List Val)) :=
+  -- `with suppress(Exception): candidate = self.bind_dataclass(data, clazz)`
+  let outcomes := matching.map fun k => (rec cfg k data).run
+  match outcomes.find? (fun o => match o with | .error (.unsupported _) => true | _ => false) with
+  | some (.error err) => .error err
+  | _ =>
+    let cands : List (List Val) := outcomes.filterMap fun o => match o with
+      | .ok vs => some vs
+      | .error _ => none
+    match maxScore (cands.flatten.map scoreVal) with
+    | none => .ok none
+    | some mx =>
+      if ordered then
+        match cands.find? (fun vs => vs.any (scoreVal · == mx)) with
+        | some vs => .ok (some (vs.filter (scoreVal · == mx)))
+        | none => .ok none
+      else .ok (some (cands.flatten.filter (scoreVal · == mx)))
+
 /-- `DictDecoder.bind_best_dataclass(data, classes)`; `ordered` = the iterable is a tuple
-(`var.types`), otherwise a `set` -/
+(`var.types`), otherwise a `set`.  The candidates are tried with strict conversions; when none
+binds and the caller's `fail_on_converter_warnings` is off they are ranked again with the
+caller's configuration (the winner bound again is the same value: warnings are not modelled) -/
 def bindBestWith (rec : Rec) (Γ : Ctx) (cfg : ParserConfig) (ordered : Bool) (classes : List ClassId)
     (data : J) : ND Val :=
   match data with
   | .obj kvs =>
     let strict : ParserConfig := { cfg with failOnConverterWarnings := true }
-    let matching := classes.filter (localNamesMatch Γ (kvKeys kvs))
-    -- `with suppress(Exception): candidate = decoder.bind_dataclass(data, clazz)`
-    let outcomes := matching.map fun k => (rec strict k data).run
-    match outcomes.find? (fun o => match o with | .error (.unsupported _) => true | _ => false) with
-    | some (.error err) => ND.fail err
-    | _ =>
-      let cands : List (List Val) := outcomes.filterMap fun o => match o with
-        | .ok vs => some vs
-        | .error _ => none
-      match maxScore (cands.flatten.map scoreVal) with
-      | none => ND.fail (.parser "Failed to bind object to any of the classes")
-      | some mx =>
-        if ordered then
-          match cands.find? (fun vs => vs.any (scoreVal · == mx)) with
-          | some vs => ND.choose (vs.filter (scoreVal · == mx))
-          | none => ND.fail (.parser "unreachable")
-        else ND.choose (cands.flatten.filter (scoreVal · == mx))
+    let matching := classes.filter (localNamesMatch Γ (bestKeys Γ cfg classes (kvKeys kvs)))
+    match findBestWith rec strict ordered matching data with
+    | .error err => ND.fail err
+    | .ok (some vs) => ND.choose vs
+    | .ok none =>
+      if cfg.failOnConverterWarnings then ND.fail (.parser "Failed to bind object to any of the classes")
+      else
+        match findBestWith rec cfg ordered matching data with
+        | .error err => ND.fail err
+        | .ok (some vs) => ND.choose vs
+        | .ok none => ND.fail (.parser "Failed to bind object to any of the classes")
   | _ => ND.fail (.leaked "AttributeError")
 
 /-- `DictDecoder.bind_complex_type` -/
@@ -195,7 +221,8 @@ def choiceVar (c : VarCore) : XmlVar := c.toVar
 /-- `DictDecoder.bind_derived_value` -/
 def bindDerivedValueWith (e : BEnv) (rec : Rec) (Γ : Ctx) (cfg : ParserConfig) (m : XmlMeta) (var : XmlVar)
     (kvs : List (Str × J)) : ND Val :=
-  match kvGet kvs kQName, kvGet kvs kType, kvGet kvs kValue with
+  -- `data["qname"]`, `data.get("type")`, `data["value"]`
+  match kvGet kvs kQName, some ((kvGet kvs kType).getD J.null), kvGet kvs kValue with
   | some (.str qname), some xt, some params =>
     let xsiType : Except Err (Option Str) := match xt with
       | .null => .ok none
@@ -274,8 +301,8 @@ def bindItemWith (e : BEnv) (rec : Rec) (Γ : Ctx) (cfg : ParserConfig) (m : Xml
   else
     match value with
     | .obj kvs =>
-      if keysEq kvs anyKeys then rec cfg anyId value
-      else if keysEq kvs derivedKeys then bindDerivedValueWith e rec Γ cfg m var kvs
+      if isGeneric kvs anyRequired anyKeys then rec cfg anyId value
+      else if isGeneric kvs derivedRequired derivedKeys then bindDerivedValueWith e rec Γ cfg m var kvs
       else bindComplexWith rec Γ cfg m var value
     | _ => ND.ofExcept (bindText e cfg var value)
 
